@@ -541,7 +541,7 @@ val is_arithmetic : node -> bool
 
 val is_aggregation : node -> bool
 
-val is_single_feature : node -> bool result
+val is_single_feature : node -> bool
 
 val neg_of_term : node -> bool result
 
